@@ -75,7 +75,7 @@ CHECKS = {
                 rule="General random histories (3 apps, 4 sides, reopen-after-close, crowding, protocol errors, restarts) followed by all clients leaving and "
                      "expiry + 2 periods of virtual time through the real TimerService: per-sweep must-be-gone oracle, store-empty oracle, sweeps-per-lifetime "
                      "monitor; 1 in 5 histories with the first db access of sweeps 2, 3 and a later one failing (sqlite shim raising 'database is locked'), "
-                     "1 in 25 with a second connection really holding BEGIN EXCLUSIVE across the timer instant, 1 in 25 running 50 further periods.",
+                     "1 in 25 with a second connection really holding BEGIN EXCLUSIVE across the timer instant, 1 in 25 running 50 further periods; 12 crash-image runs (every commit boundary of a two-app history restarted and run to quiescence: the store must end empty).",
                 nontrivial_rule="a history counts if a sweep met an idle channel that had to be gone or the quiescence oracle ran; distinct by history hash.",
                 floors={"quick": {"c13_must_be_gone": 2000, "c13_empty_at_quiescence": 1500, "c13_sweep_count": 1500,
                                   "c13_injected_sweep_failure": 300, "c13_real_lock_sweep_failure": 30, "sweep_failed_injected": 300}}),
@@ -85,7 +85,7 @@ CHECKS = {
                      "Per distinct image (by logical content after SQLite recovery): server's own open routines + integrity_check, uniqueness/dangling checks, "
                      "'nobody returns' (service on the image, expiry + 2 periods through the real timer: no sweep error, store empty), and for in-flight "
                      "claim/release/open/close 'clients resume' (everyone rebinds, command re-sent, generated continuation) compared with the same continuation "
-                     "from the files as they were when the command had completed.",
+                     "from the files as they were when the command had completed; and on images strictly inside multi-commit commands 'others return' (the in-flight client stays away, other clients bind, allocate and run a generated continuation under the full tracker: no internal failure, dropped connection, left-open transaction, duplicate record or allocation of a stored name). A connection in autocommit mode makes every write statement a crash point.",
                 nontrivial_rule="a history counts if it produced at least one crash image; distinct by history hash (distinct images counted separately).",
                 level_text="Fault enumeration by runtime monitoring: every commit boundary of every executed command and sweep is a crash point; each distinct "
                            "on-disk state is restarted on the real code under both continuations.",
@@ -103,14 +103,14 @@ CHECKS = {
                 technique="runtime monitoring: differential comparison of a restarted and a non-restarted execution of the real server",
                 floors={"quick": {"c11_pair": 800, "c11_frames_compared": 20000, "c11_pair_with_sweep_after_cut": 300}}),
     "C12": dict(module=H, level="exploration",
-                rule="Same engine, sweeps fired by the real TimerService on a virtual clock; every sweep judged by the must-survive oracle per mailbox.",
+                rule="Same engine, sweeps fired by the real TimerService on a virtual clock; every sweep judged by the must-survive oracle per mailbox (subscribed now / a successful claim, allocate, open or add less than 660 s ago / last subscriber left less than 360 s ago), and by the sweep footprint (nothing but expired channels changes); the now/old the service passes to the sweep must be the true time and true time - 660 s.",
                 nontrivial_rule="a history counts if a sweep met a mailbox that had to survive; distinct by history hash.",
                 floors={"quick": {"c12_must_survive": 500, "c12_must_survive_subscribed": 50,
                                   "c12_must_survive_recently_subscribed": 50}}),
     "C14": dict(module="mon.checks.c14", level="exploration",
                 rule="Differential: each random or directed history is executed once, then once more per chosen acknowledged claim/release/open/close with "
                      "that command re-sent at the same virtual instant on a fresh connection of the same app and side (nameplate/mailbox named explicitly, same "
-                     "mood) which is then dropped; the duplicate's answer, all later frames of the original connections and the final channel rows "
+                     "mood) which is then dropped at once or (every second duplicate) stays connected next to the original until the original closes, drops or the server restarts; odd seeds run on database files created from the schema snapshots in mon/legacy/; the duplicate's answer, all later frames of the original connections and the final channel rows "
                      "(timestamps included) are compared after renaming generated ids.",
                 nontrivial_rule="a history counts if it had at least one eligible acknowledged command; distinct by history hash.",
                 technique="runtime monitoring: differential comparison of executions with and without a duplicated command",
@@ -123,7 +123,7 @@ CHECKS = {
                 floors={"quick": {"c15_classified_mailbox": 100, "c15_classified_nameplate": 100, "c15_status_row": 100,
                                   "c15_classifier_case": 18000}}),
     "C16": dict(module=H, level="exploration",
-                rule="Same engine with blur intervals 1,7,60,61,97,3600,86400 s; every usage row written judged by the blur post-condition.",
+                rule="Same engine with blur intervals 1,7,60,61,97,3600,86400 s; every usage row written or changed judged by the blur post-condition; the blur interval is switched at 60 % of the restarts; 16 crash-image runs (every commit boundary of a two-app history restarted with blur and swept).",
                 nontrivial_rule="a history counts if a blurred row was written; distinct by history hash.",
                 floors={"quick": {"c16_blur_bind": 100, "c16_blur_mailbox-close": 20, "c16_blur_nameplate-release": 20,
                                   "c16_blur_mailbox-pruned": 20, "c16_blur_nameplate-pruned": 10,
@@ -148,7 +148,7 @@ CHECKS = {
                      "(quick: every 5th, thorough: all); exceptions at each audited file-system call (OSError), at each sqlite authorizer request inside the "
                      "schema script (denial) and at each source line of the creation functions (sys.monitoring failpoint). After each: target absent or complete "
                      "(integrity_check, version row, schema dump equal to a fresh database) and the next normal start succeeds. Generated pre-existing files "
-                     "of 13 classes judged for keep / reject-and-byte-identical / DBAlreadyExists / DBDoesntExist.",
+                     "of 16 classes (half of them with neighbouring files that must stay byte-identical; create-only entry points on missing paths; current-version files that fail the foreign-key check) judged for keep / reject-and-byte-identical / DBAlreadyExists / DBDoesntExist.",
                 nontrivial_rule="one case per (injection kind, schema, event index) that actually interrupted the creation, and per generated pre-existing file; all are non-trivial.",
                 level_text="Fault enumeration: the event spaces (statements, audited fs calls, authorizer requests, source lines; syscalls in the thorough tier) "
                            "of the real creation code are enumerated completely and every point is injected once on the real code and real files.",
